@@ -87,6 +87,23 @@ pub fn pin_build(e: &Expr, ty: &Ty, free: &[(String, Ty)], fns: &[FnDef], debug_
     Ok(Pinned { prog, text, built, free: free.to_vec(), ty: ty.clone(), expr: e.clone() })
 }
 
+/// Like `pin_build`, but every free variable that occurs exactly once in the term is written as a direct
+/// `witness::NAME` expression at its use site instead of going through an anchored `let`. Only for terms whose use
+/// sites inspect those witnesses completely (an un-anchored, partly inspected witness runs into known finding D1(ii)).
+pub fn pin_build_direct(e: &Expr, ty: &Ty, free: &[(String, Ty)], fns: &[FnDef], debug_flags: &[bool]) -> Result<Pinned, (String, drive::CompileOutcome)> {
+    let (e_direct, rest, _) = gen::inline_single_use_witnesses(e, free);
+    let prog = gen::wrap_term(&e_direct, ty, &rest, fns);
+    let text = prog.render();
+    let mut built = vec![];
+    for d in debug_flags {
+        match drive::build(&text, simfony::Arguments::default(), *d) {
+            Ok(b) => built.push((*d, b)),
+            Err(o) => return Err((text, o)),
+        }
+    }
+    Ok(Pinned { prog, text, built, free: free.to_vec(), ty: ty.clone(), expr: e.clone() })
+}
+
 pub fn run_replay(text: &str, witness: &[(String, Val, Ty)], debug: bool, expect: &str, observed: &str) -> J {
     json!({"kind": "run", "program": text, "args": [], "witness": map_json(witness), "debug": debug, "env": "dummy", "expect": expect, "observed": observed})
 }
